@@ -195,9 +195,6 @@ impl ArgSpec {
         let n = self.value_names.len();
         if n > 1 {
             (n, n)
-        } else if self.is_positional() && self.action == Action::Append {
-            // clap: positional Append defaults to 1.. ; handled by Arg::_build
-            (1, usize::MAX)
         } else {
             (1, 1)
         }
